@@ -947,6 +947,15 @@ func (a *Adversary) AttackEquivocalCommit() bool {
 	zX := n.Publish(Z, true, &pbft.VoteMessage{Vote: n.SignVote(vs, Z, h, 0, types.VoteTypePrecommit, X)})
 	n.DeliverMatching(H1, func(e *Env) bool { return e.ID == zX.ID })
 	a.ByzVotes += 2
+	if a.Rng.Intn(2) == 0 {
+		// the same signed vote arrives again and again (gossip re-delivery, or Z re-sending it): it
+		// still is one vote of one validator
+		for i := 0; i < 3 && n.Nodes[H1].Up; i++ {
+			n.Deliver(H1, zX.ID)
+			n.DrainInternal(H1)
+			a.Dups++
+		}
+	}
 	// one more honest precommit for X: +2/3 only together with Z's second vote
 	done := false
 	n.DeliverMatching(H1, func(e *Env) bool {
